@@ -86,6 +86,18 @@ func (bs *sqlPartStore) PutPart(ctx context.Context, tx database.Tx, partId part
 			return err
 		}
 	}
+	if chunkIndex == 0 {
+		// A zero-length part still has to exist: GetPart reports ErrPartNotFound
+		// when chunk 0 is missing, which made objects with an empty part unreadable.
+		emptyChunk := partContent.Entity{
+			Id:         ptrutils.ToPtr(partId),
+			ChunkIndex: 0,
+			Content:    []byte{},
+		}
+		if saveErr := bs.partContentRepository.SavePartContent(ctx, tx.SqlTx(), bs.partStoreId, &emptyChunk); saveErr != nil {
+			return saveErr
+		}
+	}
 
 	return nil
 }
